@@ -31,12 +31,12 @@ class NumberType(Type):
                 other.value = float(other.value)   # a literal like 8.0 or 3.5 can be compared with an integer node
             else:
                 other.value = self.dtype(other.value)
-        elif type(self)==type(other):
-            # if both datatypes are known
+        elif type(self)==type(other) or (self.dtype in [int,float] and other.dtype in [int,float]):
+            # if both datatypes are known (an integer node can be compared with a float node)
             if self.dtype in [int,float]:
                 self.convert(other.unit)
-        else:                               # throw error if both datatypes are unknown
-            raise Exception("Invalid comparison:", expr)
+        else:                               # throw error if the datatypes cannot be compared
+            raise Exception("Invalid comparison:", self, other)
         return self.value, other.value
             
     def __eq__(self, other):
